@@ -159,6 +159,14 @@ func (eng *Engine) VerifyFunction(fn *ssa.Function, con *Contract) (u *Unit) {
 			}
 			u.addObl(o)
 		}
+		// lock balance (functions marked safe): what was acquired is released on this return path
+		if con.Safe {
+			if hn, ok := ex.st.heap[heldComp]; ok {
+				if h0 := x.heapGet(entry, heldComp); h0 != hn {
+					u.addObl(&Obligation{Name: fmt.Sprintf("%s#safe:lockbalance%s", name, suffix), Kind: "safe:lock", Clause: "every mutex acquired by the function is released on every return path", Goal: fmt.Sprintf("(=> %s (= %s %s))", ex.cond, hn, h0)})
+				}
+			}
+		}
 		// frame
 		x.frameObligations(fr, con, ws, env, ex, entry, name+suffix)
 	}
